@@ -43,6 +43,7 @@ inductive WAct where
   | kaTimer               -- the keepalive timer becomes due
   | reset                 -- operator: hard ResetPeer (`force_down` with Cease/peer-deconfigured, BOTH roles)
   | bfdDown               -- BFD session down (`force_down` with a silent close, BOTH roles)
+  | wait (d : Nat)        -- `d` seconds pass (the runtime's clock; the role is irrelevant)
   deriving DecidableEq, Repr, Inhabited
 
 /-- The FSM-level event an action amounts to. -/
@@ -60,6 +61,7 @@ def WAct.ev : WAct → Ev
   | .kaTimer => .input .kaTimer
   | .reset => .input .disconnected      -- per live role: the task ends outside the FSM, then
   | .bfdDown => .input .disconnected    -- `apply_disconnect` feeds `Disconnected`
+  | .wait _ => .input .disconnected     -- (not used: a wait is `TEv.wait`)
 
 inductive Frame where
   | open_
@@ -96,6 +98,8 @@ structure WStep where
   /-- what the rig reports besides (never in the model): the driver does not come to rest, a close
       channel and its connection disagree -/
   anomalies : List String := []
+  /-- timer expiries during a `wait`: (time in seconds since the start, role, hold timer?) -/
+  fired : List (Nat × Role × Bool) := []
   deriving DecidableEq, Repr, Inhabited
 
 def outsFor (r : Role) (outs : List POut) : List Out :=
@@ -131,8 +135,9 @@ def tmFor (s : TState) (r acting : Role) (outs : List POut) : Option Tm :=
   | none => none
   | some _ =>
       let mine := if r = acting then outsFor r outs else []
-      some { holdSet := mine.any isSetHold, hold := (s.slots r).hold,
-             kaSet := mine.any isSetKa, ka := (s.slots r).ka }
+      -- deadlines are reported relative to the current time
+      some { holdSet := mine.any isSetHold, hold := (s.slots r).hold.map (· - s.now),
+             kaSet := mine.any isSetKa, ka := (s.slots r).ka.map (· - s.now) }
 
 def confirmedState (s : State) : Bool := s = .openConfirm ∨ s = .established
 
@@ -179,7 +184,24 @@ def peerDown (s : TState) (n : Option Notif) : TState × WStep :=
   (s2, { kind := .step, toA := fa, toP := fp, stA := s2.peer.state .active, stP := s2.peer.state .passive,
          tmA := tmFor s2 .active .active [], tmP := tmFor s2 .passive .passive [] })
 
+/-- `d` seconds pass: the timers that become due fire in time order (`Timed.advance`); a keepalive
+    expiry puts a KEEPALIVE on the wire, a hold expiry NOTIFICATION (4,0) and the close. -/
+def waitStep (s : TState) (d : Nat) : TState × WStep :=
+  match tstep s (.wait d) with
+  | (s', .fired fs) =>
+      let fr (r : Role) : List Frame :=
+        fs.flatMap fun f => if f.role = r then framesFor r f.role (.fsm f.outs) else []
+      let outs (r : Role) : List POut := fs.flatMap fun f => if f.role = r then f.outs else []
+      (s', { kind := .step, toA := fr .active, toP := fr .passive,
+             stA := s'.peer.state .active, stP := s'.peer.state .passive,
+             tmA := tmFor s' .active .active (outs .active), tmP := tmFor s' .passive .passive (outs .passive),
+             fired := fs.map fun f => (f.time, f.role, f.isHold) })
+  | (s', .step _) => (s', idleStep .step s')   -- unreachable
+
 def wstep (s : TState) (r : Role) (a : WAct) : TState × WStep :=
+  match a with
+  | .wait d => waitStep s d
+  | _ =>
   match a.forceDown? with
   | some n => peerDown s n
   | none =>
